@@ -17,11 +17,14 @@ use std::time::{Duration, Instant};
 #[derive(Clone, Debug, PartialEq)]
 pub enum COp { Poll { fresh: bool }, Set(u64), Get, Drop, Up,
                /// free-running rounds only (no ledger): `Subscriber::next_now`, `SharedObservable::set_if_not_eq`
-               NextNow, Sne(u64) }
+               NextNow, Sne(u64), Shne(u64),
+               /// `next_ref()` awaited again and again until the value `until` has been seen / `set(1..=n)` in order
+               NextRefs { until: u64 }, SetSeq(u64) }
 impl COp {
     fn text(&self) -> String {
         match self { COp::Poll { fresh: false } => "poll".into(), COp::Poll { fresh: true } => "pollf".into(), COp::Set(v) => format!("set:{v}"),
-            COp::Get => "get".into(), COp::Drop => "drop".into(), COp::Up => "up".into(), COp::NextNow => "nextnow".into(), COp::Sne(v) => format!("sne:{v}") }
+            COp::Get => "get".into(), COp::Drop => "drop".into(), COp::Up => "up".into(), COp::NextNow => "nextnow".into(), COp::Sne(v) => format!("sne:{v}"), COp::Shne(v) => format!("shne:{v}"),
+            COp::NextRefs { until } => format!("nextrefs:{until}"), COp::SetSeq(n) => format!("setseq:{n}") }
     }
 }
 
@@ -111,6 +114,27 @@ fn worker(sh: Arc<Shared>, t: usize, op: COp, mut h: Handle, forced: bool, round
             (COp::Up, Handle::Weak(w)) => match w.upgrade() { Some(o) => { upgraded = Some(o); "some".into() } None => "none".into() },
             (COp::NextNow, Handle::Sub(s, _, _)) => s.next_now().to_string(),
             (COp::Sne(v), Handle::Clone(o)) => fmt_opt(o.set_if_not_eq(*v)),
+            (COp::Shne(v), Handle::Clone(o)) => fmt_opt(o.set_if_hash_not_eq(*v)),
+            (COp::SetSeq(n), Handle::Clone(o)) => { for i in 1..=*n { o.set(i); } "-".into() }
+            (COp::NextRefs { until }, Handle::Sub(s, _, w)) => {
+                // every value handed out under a guard, in order; gives up after a generous number of polls
+                let mut seen: Vec<u64> = vec![];
+                let mut polls = 0u64;
+                'outer: while seen.last() != Some(until) {
+                    let mut cx = Context::from_waker(w);
+                    let mut fut = std::pin::pin!(s.next_ref());
+                    loop {
+                        polls += 1;
+                        if polls > 50_000_000 { break 'outer; }
+                        match std::future::Future::poll(fut.as_mut(), &mut cx) {
+                            Poll::Ready(Some(g)) => { seen.push(*g); break; }
+                            Poll::Ready(None) => break 'outer,
+                            Poll::Pending => std::hint::spin_loop(),
+                        }
+                    }
+                }
+                seen.iter().map(|v| v.to_string()).collect::<Vec<_>>().join(",")
+            }
             _ => unreachable!(),
         };
         results.push(res.clone());
@@ -136,8 +160,8 @@ fn setup(p: &Program) -> Setup {
     for op in &p.ops {
         handles.push(match op {
             COp::Poll { fresh } => { let (f, w) = flag_waker(); n_subs += 1; Handle::Sub(if *fresh { root.subscribe_reset() } else { root.subscribe() }, f, w) }
-            COp::NextNow => { let (f, w) = flag_waker(); n_subs += 1; Handle::Sub(root.subscribe(), f, w) }
-            COp::Set(_) | COp::Get | COp::Drop | COp::Sne(_) => { n_clones += 1; Handle::Clone(root.clone()) }
+            COp::NextNow | COp::NextRefs { .. } => { let (f, w) = flag_waker(); n_subs += 1; Handle::Sub(root.subscribe(), f, w) }
+            COp::Set(_) | COp::Get | COp::Drop | COp::Sne(_) | COp::Shne(_) | COp::SetSeq(_) => { n_clones += 1; Handle::Clone(root.clone()) }
             COp::Up => Handle::Weak(root.downgrade()),
         });
     }
@@ -250,6 +274,22 @@ fn finish(sink: &mut Sink, p: &Program, joined: Vec<(Handle, Vec<String>, Option
                     sink.oracle_fail("C04", &format!("thread {t}: after next_now the poll answers {again}, the final value is {value}"));
                 }
             }
+            (COp::NextRefs { until }, Handle::Sub(..)) => {
+                // C04 / C01: each update is handed out at most once and in order: the values seen under the guards strictly increase
+                let seen: Vec<u64> = results.first().map(|r| r.split(',').filter_map(|x| x.parse().ok()).collect()).unwrap_or_default();
+                if let Some(k) = seen.windows(2).position(|w| w[0] >= w[1]) {
+                    sink.oracle_fail("C04,C01", &format!("thread {t}: next_ref() handed out {} and then {} while the writer stores 1, 2, 3, ... in order (a value handed out twice / out of order)", seen[k], seen[k + 1]));
+                }
+                if seen.last() != Some(until) { sink.oracle_fail("C04,C01,C02", &format!("thread {t}: next_ref() never handed out the final value {until} (last seen {:?})", seen.last())); }
+            }
+            (COp::SetSeq(_), Handle::Clone(_)) => { owners += 1; }
+            (COp::Shne(v), Handle::Clone(_)) => {
+                owners += 1;
+                if let Some(r) = results.first() { if let Some(x) = r.strip_prefix("some(").and_then(|x| x.strip_suffix(")")).and_then(|x| x.parse::<u64>().ok()) {
+                    if x == *v { sink.oracle_fail("C04,C01", &format!("thread {t}: set_if_hash_not_eq({v}) replaced a value with the same hash ({x}) and notified (comparison and store are not one step)")); }
+                    written.push(*v); prevs.push(x);
+                } }
+            }
             (COp::Sne(v), Handle::Clone(_)) => {
                 owners += 1;
                 if let Some(r) = results.first() { if let Some(x) = r.strip_prefix("some(").and_then(|x| x.strip_suffix(")")).and_then(|x| x.parse::<u64>().ok()) {
@@ -322,7 +362,7 @@ fn run_forced(sink: &mut Sink, id: &str, p: &Program, atomic_drop: bool, sched: 
             continue;
         }
         // expected to arrive
-        let deadline = Instant::now() + Duration::from_secs(5);
+        let deadline = Instant::now() + Duration::from_secs(20);
         let mut d = sh.m.lock().unwrap();
         let ev = loop {
             if let Some(pos) = d.reports.iter().position(|(x, _)| *x == t) { break d.reports.remove(pos).map(|(_, e)| e); }
@@ -341,7 +381,7 @@ fn run_forced(sink: &mut Sink, id: &str, p: &Program, atomic_drop: bool, sched: 
             Some(Ev::Done(r)) => { sink.line(&format!("adv {t}"), &format!("done {r}")); if led.pc_name(t) != "finished" { timed_out = true; } }
             None => {
                 sink.line(&format!("adv {t}"), "timeout");
-                sink.oracle_fail("C02,C04", &format!("thread {t} did not reach its next pause point within 5 s (unexpected blocking)"));
+                sink.oracle_fail("C02,C04", &format!("thread {t} did not reach its next pause point within 20 s (unexpected blocking)"));
                 timed_out = true;
                 TIMEOUTS.fetch_add(1, Ordering::SeqCst);
             }
@@ -409,6 +449,9 @@ pub fn free_programs() -> Vec<(&'static str, Program)> {
         ("sne|sne|sne", Program { init: 1, ops: vec![COp::Sne(7), COp::Sne(7), COp::Sne(7)], extra_clones: 0 }),
         ("sne|set|poll", Program { init: 1, ops: vec![COp::Sne(7), COp::Set(7), pl(false)], extra_clones: 0 }),
         ("pollf|set|set.free", Program { init: 1, ops: vec![pl(true), COp::Set(5), COp::Set(6)], extra_clones: 0 }),
+        ("shne|shne", Program { init: 1, ops: vec![COp::Shne(7), COp::Shne(7)], extra_clones: 0 }),
+        ("shne|shne|sne", Program { init: 1, ops: vec![COp::Shne(7), COp::Shne(7), COp::Sne(7)], extra_clones: 0 }),
+        ("nextrefs|setseq", Program { init: 0, ops: vec![COp::NextRefs { until: 300 }, COp::SetSeq(300)], extra_clones: 0 }),
     ]
 }
 
